@@ -83,6 +83,8 @@ int main(int argc, char **argv) {
     { const char *pg = getenv("VERIF_PENDING"); if (pg && *pg) { char *d = strdup(pg), *sv = NULL; sigset_t bs; sigemptyset(&bs);
         for (char *t = strtok_r(d, ",", &sv); t; t = strtok_r(NULL, ",", &sv)) sigaddset(&bs, atoi(t));
         sigprocmask(SIG_BLOCK, &bs, NULL); free(d); d = strdup(pg); for (char *t = strtok_r(d, ",", &sv); t; t = strtok_r(NULL, ",", &sv)) kill(getpid(), atoi(t)); free(d); } }
+    /* the utmp file the library's own reader looks at (its test hook): lets a run put a FIFO, a leased file ... in that place */
+    { const char *up = getenv("VERIF_UTMP_PATH"); if (up && *up) { extern void snoopy_util_utmp_test_setAlternateUtmpFilePath(char const * const); snoopy_util_utmp_test_setAlternateUtmpFilePath(up); } }
     if (getenv("VERIF_STDIN_PTY")) { int m = posix_openpt(O_RDWR | O_NOCTTY); grantpt(m); unlockpt(m); int sl = open(ptsname(m), O_RDWR | O_NOCTTY); dup2(sl, 0); close(sl); }
     /* sink states of the caller's own stdout / stderr: "gone:<fds>" = pipe whose reader has closed, "full:<fds>" = pipe that is
        full and that nobody reads, "nearly:<fds>" = the same with one page of room, "sockgone:<fds>" = stream socket whose peer has closed */
